@@ -15,6 +15,27 @@ def call_dotted(call):
     return dotted(call.func) if isinstance(call.func, (ast.Attribute, ast.Name)) else None
 
 
+def rdotted(call, env):
+    """dotted text of the callee with a local alias of the receiver resolved through the path environment
+    (`parent = self.substream; parent.seek(..)` -> 'self.substream.seek')"""
+    f = call.func
+    d = dotted(f) if isinstance(f, (ast.Attribute, ast.Name)) else None
+    if d is None or not isinstance(f, ast.Attribute):
+        return d
+    base = f
+    chain = []
+    while isinstance(base, ast.Attribute):
+        chain.append(base.attr)
+        base = base.value
+    if isinstance(base, ast.Name) and base.id in env:
+        t = env[base.id]
+        if isinstance(t, Term) and len(t.p) == 1:
+            (k, c), = t.p.items()
+            if c == 1 and len(k) == 1 and all(part.isidentifier() for part in k[0].split(".")):
+                return k[0] + "." + ".".join(reversed(chain))
+    return d
+
+
 def is_super_call(call, name=None):
     f = call.func
     return isinstance(f, ast.Attribute) and isinstance(f.value, ast.Call) and isinstance(f.value.func, ast.Name) \
